@@ -41,6 +41,10 @@ def ddr3RttWr (mr2 : Nat) : Nat := bitsAt mr2 9 2
 def ddr3Ron (mr1 : Nat) : Nat := bitsAt mr1 1 1 + 2 * bitsAt mr1 5 1
 def ddr3RttNom (mr1 : Nat) : Nat := bitsAt mr1 2 1 + 2 * bitsAt mr1 6 1 + 4 * bitsAt mr1 9 1
 def ddr3Tdqs (mr1 : Nat) : Nat := bitsAt mr1 11 1
+/-- MR1 A7 write-levelling enable, A12 Qoff (outputs disabled), A0 DLL disable, A4:A3 additive latency:
+all zero in normal operation -/
+def ddr3Special (mr1 : Nat) : Nat :=
+  bitsAt mr1 7 1 + 2 * bitsAt mr1 12 1 + 4 * bitsAt mr1 0 1 + 8 * bitsAt mr1 3 2
 
 /-! ### DDR4 -/
 def ddr4BL (mr0 : Nat) : Option Nat :=
@@ -69,6 +73,9 @@ def ddr4DllEnable (mr1 : Nat) : Nat := bitsAt mr1 0 1
 def ddr4Ron (mr1 : Nat) : Nat := bitsAt mr1 1 2
 def ddr4RttNom (mr1 : Nat) : Nat := bitsAt mr1 8 3
 def ddr4Tdqs (mr1 : Nat) : Nat := bitsAt mr1 11 1
+/-- MR1 A7 write-levelling enable, A12 Qoff, A4:A3 additive latency: all zero in normal operation -/
+def ddr4Special (mr1 : Nat) : Nat :=
+  bitsAt mr1 7 1 + 2 * bitsAt mr1 12 1 + 8 * bitsAt mr1 3 2
 /-- MR3 A7:A6 fine granularity refresh: 0 = 1x, 1 = 2x, 2 = 4x -/
 def ddr4FineRefresh (mr3 : Nat) : Nat := bitsAt mr3 6 3
 /-- MR6 A12:A10 tCCD_L = 4 + code -/
